@@ -177,3 +177,6 @@ def re_search_lit(pat, s): return _re.search(pat, s) is not None
 def abspath_of(p):
     import os
     return os.path.abspath(p)
+
+def at_entry(v): return v
+def fresh(v): return True
